@@ -213,7 +213,7 @@ Meta == [mode |-> "meta",
          atoms |-> [t \in AllAtomToks |-> AT(t)],
          nodes |-> NodeToks, cnodes |-> CustomNodeToks, extra |-> ExtraNodes,
          decoy |-> [t \in NodeToks \cup CustomNodeToks |-> DecoyN(t)],
-         units |-> [u \in UnitSyms |-> UText(u)], custom |-> CustomUnits,
+         units |-> [u \in UnitSyms |-> UText(u)], custom |-> CustomUnits, customalt |-> CustomAlt,
          tplain |-> [t \in TmplToks |-> TPlain(t)], fn1 |-> Fn1Table]
 
 \* template strings in which a brace is followed by a reference are printed whatever their length
